@@ -99,6 +99,51 @@ func presentations(v reflect.Value) []struct {
 	return out
 }
 
+// positionWrappers holds a (member-position) struct value behind a pointer that is a later
+// member, a first member, a slice element and a map value, and by value between two members.
+func positionWrappers(v reflect.Value, full bool) []any {
+	t := v.Type()
+	pt := reflect.PtrTo(t)
+	p := reflect.New(t)
+	p.Elem().Set(v)
+	a := reflect.StructField{Name: "A", Type: reflect.TypeOf(0), Tag: `json:"a"`}
+	z := reflect.StructField{Name: "Z", Type: reflect.TypeOf(""), Tag: `json:"z"`}
+	var out []any
+	mk := func(fields []reflect.StructField, at int, val reflect.Value) {
+		sv := reflect.New(reflect.StructOf(fields)).Elem()
+		sv.Field(at).Set(val)
+		for i := 0; i < sv.NumField(); i++ {
+			switch {
+			case i == at:
+			case sv.Field(i).Kind() == reflect.Int:
+				sv.Field(i).SetInt(5)
+			case sv.Field(i).Kind() == reflect.String:
+				sv.Field(i).SetString("z")
+			}
+		}
+		out = append(out, sv.Interface(), sv.Addr().Interface())
+	}
+	mk([]reflect.StructField{a, {Name: "P", Type: pt, Tag: `json:"p"`}, z}, 1, p)
+	mk([]reflect.StructField{{Name: "P", Type: pt, Tag: `json:"p"`}, z}, 0, p)
+	mk([]reflect.StructField{a, {Name: "S", Type: t, Tag: `json:"s"`}, z}, 1, v)
+	sl := reflect.MakeSlice(reflect.SliceOf(pt), 2, 2)
+	sl.Index(0).Set(p)
+	out = append(out, sl.Interface())
+	if !full {
+		// every wrapper is a new type to compile (in both libraries): the quick tier uses four
+		return out
+	}
+	mk([]reflect.StructField{a, {Name: "P", Type: pt, Tag: `json:"p,omitempty"`}}, 1, p)
+	mk([]reflect.StructField{{Name: "S", Type: t, Tag: `json:"s"`}, a}, 0, v)
+	m := reflect.MakeMap(reflect.MapOf(reflect.TypeOf(""), pt))
+	m.SetMapIndex(reflect.ValueOf("k"), p)
+	out = append(out, m.Interface())
+	ar := reflect.New(reflect.ArrayOf(2, t)).Elem()
+	ar.Index(1).Set(v)
+	out = append(out, ar.Interface())
+	return out
+}
+
 func stdRender(x any) string {
 	b, err := stdjson.Marshal(x)
 	if err != nil {
@@ -330,6 +375,17 @@ func c01Positions(c *rt.Ctx, kind gen.PositionKind, monitor string) {
 					encCompare(c, sub, monitor, &encCfgs[ci], p.name, p.x, p.t, p.v, "")
 				}
 			}
+			// the struct reached through a pointer that is itself a member, an element or a map
+			// value (the pointer-head opcodes), and held by value inside another struct
+			for wi, w := range positionWrappers(v, c.Tier == "thorough") {
+				wv := reflect.ValueOf(w)
+				for ci := range encCfgs {
+					if ci != (sub+wi)%len(encCfgs) && ci != (sub+wi+3)%len(encCfgs) {
+						continue
+					}
+					encCompare(c, sub, monitor, &encCfgs[ci], fmt.Sprintf("wrapped%d", wi), w, wv.Type(), wv, "")
+				}
+			}
 			c.NonTrivial(pt.T.String(), stdRender(v.Interface()))
 			sub++
 		}
@@ -352,7 +408,7 @@ func init() {
 			if c.Idx%8 == 3 {
 				c01Positions(c, gen.PositionKinds[(c.Idx/8)%len(gen.PositionKinds)], "enc-diff")
 			}
-			if c.Idx%8 == 5 {
+			if c.Idx%8 == (c.Idx/8)%8 {
 				// every catalogued odd shape, deterministically: one type per shape and batch, a nil-heavy
 				// and an ordinary value each
 				for f := range gen.Features {
